@@ -675,7 +675,14 @@ def parse_scalar(scalar_data, version):
         raise ZincParseException(
             'Failed to parse scalar: %s' % reformat_exception(pe),
             scalar_data, 1, pe.col)
-    except:
+    except ValueError:
         LOG.debug('Failing scalar data: %r (version %r)',
                   scalar_data, version)
         raise
+    except Exception as exc:
+        # Raised by a parse action, e.g. pint's UndefinedUnitError (an
+        # AttributeError) for an unknown unit: callers expect a ValueError.
+        LOG.debug('Failing scalar data: %r (version %r)',
+                  scalar_data, version)
+        raise ZincParseException(
+            'Failed to parse scalar: %s' % exc, scalar_data, 0, 0)
